@@ -234,6 +234,19 @@ func (g *c17gen) randCtx() c17ctx {
 			tags = append(tags, t)
 		}
 	}
+	// names of other platforms are ordinary tags for go/build when they are listed in the build tags
+	// (`-tags plan9` on linux selects a "+build plan9" file): the tag list is consulted for every word
+	if g.r.chance(35) {
+		for n := 1 + g.r.intn(2); n > 0; n-- {
+			w := g.r.pick(c17OSWords)
+			if g.r.bool() {
+				w = g.r.pick(c17ArchWords)
+			}
+			if w != c.GOOS && w != c.GOARCH {
+				tags = append(tags, w)
+			}
+		}
+	}
 	c.Tags = tags
 	return c
 }
